@@ -62,7 +62,8 @@ def record(co, opc, ident, wf=1, via=None):
     # 3.13 line tables have explicit "no line" starts (line None): not (offset, line) pairs, recorded by C05 only
     lines = sorted([int(a), int(b)] for a, b in opc.findlinestarts(co) if b is not None)
     return {"id": ident, "tab": table_key(opc), "wf": wf, "code": code, "ins": ins, "labels": labels, "labels2": labels2,
-            "exc": exc_targets(bc), "lines": lines,
+            # Bytecode.get_instructions() passes no exception table (as dis.get_instructions of 3.11/3.12): no handler marks on that path
+            "exc": exc_targets(bc) if via is None else [], "lines": lines,
             "names": [sname(x) for x in co.co_names], "varnames": [sname(x) for x in co.co_varnames],
             "cellvars": [sname(x) for x in getattr(co, "co_cellvars", ())],
             "freevars": [sname(x) for x in getattr(co, "co_freevars", ())],
